@@ -54,6 +54,9 @@ var c03Sigma = [][]string{
 	// one command line longer than a reader buffer whose bytes from the 4096th on read "QUIT": it
 	// is one line and gets one reply
 	{"NOOP" + strings.Repeat(" ", 4096-4) + "QUIT"},
+	// a recipient that is accepted but not stored (discard domain): the other recipients of the
+	// transaction receive the message all the same
+	{"RCPT TO:<r3@drop.test>"},
 }
 
 type c03Case struct {
@@ -103,6 +106,7 @@ func c03ExecUnits(c *fw.Ctx, backend string, cas any, seq [][]string, checkFrom 
 		smtp := sys.DefaultSMTP()
 		smtp.RejectDomains = []string{"rej.test"}
 		smtp.RejectOriginDomains = []string{"badorigin.test"}
+		smtp.DiscardDomains = []string{"drop.test"}
 		smtp.MaxMessageBytes = 5000000
 		smtp.MaxRecipients = 2 // a third RCPT is refused (552) and is no recipient of the transaction
 		s := sys.New(sys.Spec{Store: sys.StoreSpec{Backend: backend}, SMTP: smtp, NoHub: true})
@@ -174,6 +178,9 @@ func c03ExecUnits(c *fw.Ctx, backend string, cas any, seq [][]string, checkFrom 
 							anySubj = false
 						}
 						for _, a := range rcpts {
+							if strings.EqualFold(model.DomainOf(a), "drop.test") {
+								continue // accepted, not stored
+							}
 							ss.expect = append(ss.expect, sys.Expect{Mailbox: model.SimpleMailbox("local", a), From: from, To: rcpts, Subject: subj, AnySubject: anySubj, Data: body})
 						}
 						nontrivial = nontrivial || last
@@ -286,7 +293,7 @@ func c03ExecUnits(c *fw.Ctx, backend string, cas any, seq [][]string, checkFrom 
 			// bytes that arrived after the last consumed reply (only a closing notice is tolerated)
 			fail("unsolicited|at-close", fmt.Sprintf("unsolicited bytes at connection end: %q", p))
 		}
-		for _, p := range s.CheckDelivery(mo, ss.expect, "r1", "r2") {
+		for _, p := range s.CheckDelivery(mo, ss.expect, "r1", "r2", "r3") {
 			fail(p[0], p[1])
 		}
 		key = fmt.Sprintf("g%v o%v f%s r%v x%v dm%v data%d cred%v ended%v store%s", d.Greeted, d.Open, d.From, d.Rcpts, ss.refused, ss.dataMode, len(ss.data), ss.cred, ss.ended, mo.Key())
@@ -334,7 +341,7 @@ func c03Run(c *fw.Ctx) {
 	e := &fw.SeqExplorer{
 		C: c, NOps: len(c03Sigma),
 		FullDepth: fw.Pick(c, 3, 4),
-		MaxDepth:  fw.Pick(c, 8, 10),
+		MaxDepth:  fw.Pick(c, 7, 10),
 		Run: func(seq []int) (string, bool, bool) {
 			var key string
 			var ext, nt bool
